@@ -26,6 +26,7 @@ REQUIRED_FEATURES = ["bases:1", "bases:2", "base:variable-width", "base:fixed-wi
                      "set:mixed-predecessors", "set:without-base", "cli:spec:N", "cli:spec:B", "cli:spec:<r>N",
                      "cli:spec:<r>B", "cli:spec:4DN", "cli:spec:list", "nproc>1",
                      "history:output-path-reused", "bases:mixed-value-dtypes", "cli:maxres-is-a-ladder-member",
+                     "set:no-derived-level", "cli:base-is-level-of-mcool", "cli:base-in-subgroup-with-root-decoy",
                      "bases:independent-2b-3b"]
 SHARD_TIMEOUT = {"quick": 1800, "thorough": 7200}
 
@@ -67,7 +68,7 @@ def gen_base(rng, variable):
 
 
 MULT_SETS = [[2, 4], [2, 3, 6], [6, 2, 3, 12, 4], [5, 10, 50, 25], [1, 2], [2, 4, 6, 12], [3], [2, 2, 4], [4, 2, 8, 16],
-             [1, 3, 9], [10, 2, 20, 5], [7, 14]]
+             [1, 3, 9], [10, 2, 20, 5], [7, 14], [1], []]
 
 
 def verify_mcool(c, out, bt, P, symm, b, want_res, base_res, base_uri_by_res, label):
@@ -155,7 +156,7 @@ def api_case(ctx, shard, i, rng):
         if rng.random() < 0.5:
             base_uris.reverse()
     if nonderiv:
-        bad = b * max(mults) + (1 if b > 1 or variable else 0)
+        bad = b * max(mults + [2]) + (1 if b > 1 or variable else 0)
         if bad % b == 0:
             bad = None
         if bad is None:
@@ -192,6 +193,8 @@ def api_case(ctx, shard, i, rng):
             c.feature("nproc>1")
         if b not in res:
             c.feature("set:without-base")
+        if not (set(res) - set(bases)):
+            c.feature("set:no-derived-level")
         srt = sorted(set(res) | set(bases))
         if any(all(r % q for q in srt[:j][-1:]) and any(r % q == 0 for q in srt[:j]) for j, r in enumerate(srt) if j):
             c.feature("set:mixed-predecessors")
@@ -288,7 +291,18 @@ def cli_case(ctx, shard, i, rng):
         P[(a_, c_)] = int(rng.integers(1, 20))
     d = ctx.newdir()
     base = os.path.join(d, "base.cool")
-    make_cooler(base, bt, P, symm=symm)
+    base_grp = "/"
+    where = int(rng.integers(4))
+    if where == 1:
+        # the base is a level of an existing multires file (re-zoomifying one's own output)
+        base = os.path.join(d, "older.mcool")
+        base_grp = f"/resolutions/{b}"
+    elif where == 2:
+        # the base sits in a sub-group of a file whose root is another cooler
+        make_cooler(base, [["decoy", [0, 50, 100, 150]]], {(0, 1): 9, (2, 2): 4})
+        base_grp = "/in/base"
+    base_uri = base + ("::" + base_grp if base_grp != "/" else "")
+    make_cooler(base_uri, bt, P, symm=symm, mode="a")
     genome = sum(lengths)
     maxres = int(math.ceil(genome / 256))
     if spec == "list":
@@ -319,7 +333,9 @@ def cli_case(ctx, shard, i, rng):
         c.feature(f"cli:spec:{spec}")
         if maxres in want:
             c.feature("cli:maxres-is-a-ladder-member")
-        args = ["zoomify", base, "-o", out, "-c", str(int([50, 10**7][int(rng.integers(2))]))]
+        c.feature({0: "cli:base-at-root", 1: "cli:base-is-level-of-mcool", 2: "cli:base-in-subgroup-with-root-decoy",
+                   3: "cli:base-at-root"}[where])
+        args = ["zoomify", base_uri, "-o", out, "-c", str(int([50, 10**7][int(rng.integers(2))]))]
         if arg is not None:
             args += ["-r", arg]
         res = CliRunner().invoke(cli, args)
@@ -330,6 +346,6 @@ def cli_case(ctx, shard, i, rng):
                    f"{type(res.exception).__name__}: {res.exception}", {"tb": tb[-1500:]})
             return
         want_res = sorted(set(want) | {b})
-        verify_mcool(c, out, bt, P, symm, b, want_res, {b}, {b: (base, "/")}, f"cli -r {arg}")
+        verify_mcool(c, out, bt, P, symm, b, want_res, {b}, {b: (base, base_grp)}, f"cli -r {arg}")
         c.nontrivial("cli", spec, arg, b, tuple(lengths))
         ctx.sample({"cli": f"cooler zoomify -r {arg}", "base_binsize": b, "levels": want_res}, limit=8)
